@@ -1,0 +1,19 @@
+//go:build verif
+
+package verifhook
+
+import "github.com/open2b/scriggo/internal/runtime"
+
+// Hook of the vmexec engine (C01): see internal/runtime/verif_vmexec.go.
+// Use it as verifhook.DumpFunctions(program.VerifFunction()).
+type (
+	VMFunc   = runtime.VerifFunc
+	VMValue  = runtime.VerifValue
+	VMNative = runtime.VerifNative
+	VMType   = runtime.VerifType
+)
+
+var DumpFunctions = runtime.VerifDumpFunctions
+
+// Opcodes maps the name of every runtime.Operation constant to its number.
+var Opcodes = runtime.VerifOpcodes
